@@ -1,1 +1,503 @@
-fn main() {}
+//! C15 — binding generation is deterministic across processes.
+//!
+//! Space: (composed worlds with several packages/interfaces/types + the tests/codegen corpus)
+//! × every backend × its option variants × hash seeds 0..K-1, one *process* per (world, seed)
+//! that runs every backend:variant in a fixed order (process creation is the dominant cost). The std `RandomState` keys of each child are owned by the
+//! harness: an `LD_PRELOAD` shim (built at run time) answers `getrandom` from `VERIF_HASH_SEED`.
+//! ASLR stays on. Oracle: outcome, file names and file bytes identical to the seed-0 run.
+
+use e7_gen::backends::{self, Bv, Wit};
+use e7_gen::shim;
+use e7_gen::universe as uni;
+use serde_json::{json, Value};
+use std::collections::{BTreeMap, BTreeSet};
+use std::path::{Path, PathBuf};
+use std::process::Command;
+use vcommon::Run;
+
+// ------------------------------------------------------------------------------------------
+// child
+
+fn child(args: &[String]) -> ! {
+    // --child <text|path> <wit file or path> <label,label,..> [--dump <dir> <label>]
+    use std::io::Write;
+    println!("PROBE {}", shim::probe_fingerprint());
+    if args.get(1).map(|s| s.as_str()) == Some("probe") {
+        std::process::exit(0);
+    }
+    let kind = &args[1];
+    let wit = if kind == "text" {
+        Wit::Text(std::fs::read_to_string(&args[2]).expect("read wit"))
+    } else {
+        Wit::Path(args[2].clone())
+    };
+    let labels: Vec<&str> = args[3].split(',').collect();
+    let dump = args
+        .iter()
+        .position(|a| a == "--dump")
+        .map(|i| (PathBuf::from(&args[i + 1]), args[i + 2].clone()));
+    vcommon::install_quiet_panic_hook();
+    let all = backends::all_bvs();
+    // the front end runs once per process, like in the CLI
+    let loaded = vcommon::catch(|| backends::load(&wit));
+    for label in labels {
+        let bv = all
+            .iter()
+            .find(|b| b.label() == label)
+            .expect("unknown backend variant");
+        println!("BV {label}");
+        let r = match &loaded {
+            Err(p) => Err(p.clone()),
+            Ok(Err(m)) => Ok(Err(m.clone())),
+            Ok(Ok((resolve, world))) => vcommon::catch(|| backends::generate(resolve, *world, bv, None)),
+        };
+        match r {
+            Err(p) => println!("STATUS panic {}", p.replace('\n', " ")),
+            Ok(Err(m)) => println!("STATUS err {}", m.replace('\n', " ")),
+            Ok(Ok(files)) => {
+                println!("STATUS ok");
+                for (name, bytes) in &files {
+                    println!("FILE {:016x} {} {}", vcommon::fnv(bytes), bytes.len(), name);
+                    if let Some((d, l)) = &dump {
+                        if l == label {
+                            let p = d.join(name.replace('/', "__"));
+                            std::fs::write(p, bytes).expect("dump");
+                        }
+                    }
+                }
+            }
+        }
+        std::io::stdout().flush().ok();
+    }
+    std::process::exit(0)
+}
+
+// ------------------------------------------------------------------------------------------
+// parent
+
+struct Ctx {
+    exe: PathBuf,
+    so: PathBuf,
+    tmp: PathBuf,
+}
+
+fn run_child(ctx: &Ctx, seed: u64, args: &[String]) -> String {
+    let mut cmd = Command::new(&ctx.exe);
+    cmd.arg("--child").args(args);
+    shim::seeded(&mut cmd, &ctx.so, seed);
+    let out = cmd
+        .output()
+        .unwrap_or_else(|e| vcommon::machinery(&format!("cannot spawn child: {e}")));
+    let mut text = String::from_utf8_lossy(&out.stdout).into_owned();
+    if !out.status.success() {
+        // the child catches panics itself; dying is an abort/stack overflow of a generator:
+        // keep what was printed, the backend that was running gets STATUS died
+        text.push_str(&format!("\nSTATUS died {:?}\n", out.status));
+    }
+    text
+}
+
+fn split_out(s: &str) -> (String, String) {
+    let mut probe = String::new();
+    let mut rest = String::new();
+    for l in s.lines() {
+        if let Some(p) = l.strip_prefix("PROBE ") {
+            probe = p.to_string();
+        } else {
+            rest.push_str(l);
+            rest.push('\n');
+        }
+    }
+    (probe, rest)
+}
+
+/// child output → label → (status line + FILE lines)
+fn per_label(s: &str) -> BTreeMap<String, String> {
+    let mut m = BTreeMap::new();
+    let mut cur: Option<String> = None;
+    for l in s.lines() {
+        if let Some(b) = l.strip_prefix("BV ") {
+            cur = Some(b.to_string());
+            m.insert(b.to_string(), String::new());
+        } else if l.starts_with("PROBE ") || l.is_empty() {
+        } else if let Some(c) = &cur {
+            let e: &mut String = m.get_mut(c).unwrap();
+            e.push_str(l);
+            e.push('\n');
+        }
+    }
+    m
+}
+
+const KEYWORDS: &[&str] = &[
+    "pub", "fn", "extern", "unsafe", "static", "const", "struct", "enum", "impl", "mod", "use",
+    "type", "let", "func", "import", "package", "typedef", "void", "#include", "#define",
+    "namespace", "class", "using", "public", "private", "internal", "interface", "alias",
+    "template", "priv", "fnalias", "trait", "union", "var", "export", "async", "module",
+    "#[derive", "#[allow", "#[doc", "#[unsafe", "#[repr", "#[cfg", "inline", "#ifdef", "#ifndef",
+    "#endif", "return", "if", "match", "case", "suberror", "test", "partial", "abstract",
+];
+
+/// Names the construct a line starts: its leading keywords, `comment`, `closing-brace` …
+fn construct_kind(line: &str) -> String {
+    let t = line.trim_start();
+    if t.is_empty() {
+        return "blank-line".into();
+    }
+    if t.starts_with("//") || t.starts_with("/*") || t.starts_with('*') || t.starts_with("<!--") {
+        return "comment".into();
+    }
+    if t.starts_with('}') || t.starts_with(')') || t.starts_with(']') {
+        return "closing-bracket".into();
+    }
+    if t.starts_with('"') {
+        return "string-literal/json-key".into();
+    }
+    if t.starts_with("- ") || t.starts_with('#') && t[1..].starts_with([' ', '#']) {
+        return "markdown-item".into();
+    }
+    let mut words = Vec::new();
+    for w in t.split_whitespace().take(4) {
+        let w0: String = w
+            .chars()
+            .take_while(|c| c.is_ascii_alphanumeric() || *c == '#' || *c == '[' || *c == '_')
+            .collect();
+        if KEYWORDS.contains(&w0.as_str()) {
+            words.push(w0.trim_start_matches("#[").to_string());
+        } else {
+            break;
+        }
+    }
+    if words.is_empty() {
+        "statement/expression".into()
+    } else {
+        words.join(" ")
+    }
+}
+
+/// world-independent file name: directories dropped, the world/package-specific stem replaced.
+fn generic_name(name: &str) -> String {
+    let base = name.rsplit('/').next().unwrap_or(name);
+    base.to_string()
+}
+
+/// Re-run two seeds with `--dump` and describe the first difference.
+fn describe_diff(ctx: &Ctx, job: &[String], label: &str, seed: u64, tag: &str) -> (String, Value) {
+    let d0 = ctx.tmp.join(format!("dump-{tag}-0"));
+    let d1 = ctx.tmp.join(format!("dump-{tag}-s"));
+    for d in [&d0, &d1] {
+        let _ = std::fs::remove_dir_all(d);
+        std::fs::create_dir_all(d).unwrap();
+    }
+    let mut a0 = job.to_vec();
+    a0.push("--dump".into());
+    a0.push(d0.to_string_lossy().into_owned());
+    a0.push(label.to_string());
+    let mut a1 = job.to_vec();
+    a1.push("--dump".into());
+    a1.push(d1.to_string_lossy().into_owned());
+    a1.push(label.to_string());
+    let o0 = per_label(&run_child(ctx, 0, &a0)).remove(label).unwrap_or_default();
+    let o1 = per_label(&run_child(ctx, seed, &a1)).remove(label).unwrap_or_default();
+    let files = |o: &str| -> BTreeMap<String, String> {
+        o.lines()
+            .filter_map(|l| l.strip_prefix("FILE "))
+            .filter_map(|l| {
+                let mut it = l.splitn(3, ' ');
+                let h = it.next()?;
+                let _len = it.next()?;
+                Some((it.next()?.to_string(), h.to_string()))
+            })
+            .collect()
+    };
+    let (f0, f1) = (files(&o0), files(&o1));
+    let status = |o: &str| o.lines().find(|l| l.starts_with("STATUS")).unwrap_or("").to_string();
+    let mut result = ("-:outcome".to_string(), json!({"seed0": status(&o0), "seed": status(&o1)}));
+    if status(&o0) == status(&o1) {
+        let names0: Vec<_> = f0.keys().collect();
+        let names1: Vec<_> = f1.keys().collect();
+        if names0 != names1 {
+            let only0: Vec<_> = f0.keys().filter(|k| !f1.contains_key(*k)).collect();
+            let only1: Vec<_> = f1.keys().filter(|k| !f0.contains_key(*k)).collect();
+            result = (
+                "-:file-set".into(),
+                json!({"only_with_seed0": only0, "only_with_other_seed": only1}),
+            );
+        } else if let Some((name, _)) = f0.iter().find(|(n, h)| f1.get(*n) != Some(h)) {
+            let read = |d: &Path| std::fs::read(d.join(name.replace('/', "__"))).unwrap_or_default();
+            let (b0, b1) = (read(&d0), read(&d1));
+            let (t0, t1) = (String::from_utf8_lossy(&b0), String::from_utf8_lossy(&b1));
+            let l0: Vec<&str> = t0.lines().collect();
+            let l1: Vec<&str> = t1.lines().collect();
+            let i = l0
+                .iter()
+                .zip(l1.iter())
+                .position(|(a, b)| a != b)
+                .unwrap_or(l0.len().min(l1.len()));
+            let mut s0: Vec<&str> = l0.clone();
+            let mut s1: Vec<&str> = l1.clone();
+            s0.sort();
+            s1.sort();
+            let how = if s0 == s1 { "order-of" } else { "content-of" };
+            let line0 = l0.get(i).copied().unwrap_or("<end of file>");
+            let line1 = l1.get(i).copied().unwrap_or("<end of file>");
+            result = (
+                format!("{}:{how}:{}", generic_name(name), construct_kind(line0)),
+                json!({"file": name, "first_differing_line": i + 1, "seed0_line": line0, "other_seed_line": line1,
+                       "same_lines_different_order": s0 == s1}),
+            );
+        } else {
+            // the difference did not reproduce when re-run: address-dependent (ASLR) or racy
+            result = ("-:not-reproduced-on-rerun".into(), json!({"seed0": o0, "seed": o1}));
+        }
+    }
+    let _ = std::fs::remove_dir_all(&d0);
+    let _ = std::fs::remove_dir_all(&d1);
+    result
+}
+
+fn main() {
+    let mut run = Run::from_args("C15", "exploration");
+    if run.extra_args.first().map(|s| s.as_str()) == Some("--child") {
+        let a = run.extra_args.clone();
+        child(&a);
+    }
+    let exe = std::env::current_exe().unwrap_or_else(|e| vcommon::machinery(&format!("current_exe: {e}")));
+    let tmp = std::env::temp_dir().join(format!("e7-c15-{}", std::process::id()));
+    let _ = std::fs::remove_dir_all(&tmp);
+    std::fs::create_dir_all(&tmp).unwrap_or_else(|e| vcommon::machinery(&format!("mkdir {tmp:?}: {e}")));
+    let so = shim::build(&tmp);
+    let ctx = Ctx { exe, so, tmp: tmp.clone() };
+    let k: u64 = run.pick(8, 64);
+
+    // ---- the seeds must really own the hash order ---------------------------------------
+    let probe = |seed: u64| split_out(&run_child(&ctx, seed, &["probe".to_string()])).0;
+    let p0 = probe(0);
+    let p0b = probe(0);
+    let others: BTreeSet<String> = (1..k).map(probe).collect();
+    let unseeded = {
+        // without the shim two processes almost surely disagree — shows the probe is sensitive
+        let o = |_: u32| {
+            String::from_utf8_lossy(&Command::new(&ctx.exe).args(["--child", "probe"]).output().unwrap().stdout).into_owned()
+        };
+        (o(0), o(1))
+    };
+    if p0.is_empty() || p0 != p0b {
+        vcommon::machinery(&format!("getrandom interposition does not take effect: seed 0 gave {p0:?} then {p0b:?}"));
+    }
+    if others.len() < (k as usize - 1) / 2 || others.contains(&p0) && others.len() == 1 {
+        vcommon::machinery(&format!("getrandom interposition does not take effect: seeds 1..{k} gave only {} distinct HashSet orders", others.len()));
+    }
+
+    // ---- replay --------------------------------------------------------------------------
+    if let Some(d) = run.replay_detail() {
+        let job: Vec<String> = d["child_args"].as_array().unwrap().iter().map(|x| x.as_str().unwrap().to_string()).collect();
+        let mut job = job;
+        if job[0] == "text" {
+            let p = tmp.join("replay.wit");
+            std::fs::write(&p, d["wit_text"].as_str().unwrap()).unwrap();
+            job[1] = p.to_string_lossy().into_owned();
+        } else {
+            job[1] = format!("{}/{}", vcommon::repo_root(), d["wit_path_in_repo"].as_str().unwrap());
+        }
+        let seed = d["seed"].as_u64().unwrap();
+        let label = d["backend_variant"].as_str().unwrap().to_string();
+        let (kind, info) = describe_diff(&ctx, &job, &label, seed, "replay");
+        println!("seed 0 vs seed {seed}: {kind}\n{}", serde_json::to_string_pretty(&info).unwrap());
+        let _ = std::fs::remove_dir_all(&tmp);
+        std::process::exit(if kind == "-:not-reproduced-on-rerun" { 0 } else { 1 })
+    }
+
+    // ---- worlds --------------------------------------------------------------------------
+    let mut worlds: Vec<(String, Vec<String>, Value)> = Vec::new(); // (label, child args prefix, replay info)
+    let per_flavour = run.pick(4usize, 12);
+    let mut composed_ok = 0;
+    for fl in uni::FLAVOURS {
+        for j in 0..per_flavour {
+            let text = uni::rich_world(fl, j);
+            let valid = backends::load(&Wit::Text(text.clone()))
+                .and_then(|(r, w)| e7_gen::component_valid(&r, w));
+            if valid.is_err() {
+                continue;
+            }
+            composed_ok += 1;
+            let p = tmp.join(format!("w-{}-{j}.wit", fl.name()));
+            std::fs::write(&p, &text).unwrap();
+            worlds.push((
+                format!("composed:{}:{j}", fl.name()),
+                vec!["text".into(), p.to_string_lossy().into_owned()],
+                json!({"wit_text": text}),
+            ));
+        }
+    }
+    if composed_ok < uni::FLAVOURS.len() * per_flavour * 4 / 5 {
+        vcommon::machinery(&format!("only {composed_ok} composed worlds are valid"));
+    }
+    let corpus = e7_gen::corpus();
+    for p in &corpus {
+        let rel = p.strip_prefix(&format!("{}/", vcommon::repo_root())).unwrap_or(p).to_string();
+        worlds.push((
+            format!("corpus:{rel}"),
+            vec!["path".into(), p.clone()],
+            json!({"wit_path_in_repo": rel}),
+        ));
+    }
+    let bvs: Vec<Bv> = backends::all_bvs();
+    let all_labels = bvs.iter().map(|b| b.label()).collect::<Vec<_>>().join(",");
+    let rot = (run.seed as usize) % worlds.len();
+
+    // ---- run: one process per (world, seed); it runs every backend:variant in a fixed order
+    let per_world = vcommon::par_map(worlds.len(), vcommon::ncpu(), |i| {
+        let wi = (i + rot) % worlds.len();
+        let mut args = worlds[wi].1.clone();
+        args.push(all_labels.clone());
+        let mut procs = 0u64;
+        let mut run_seed = |seed: u64| -> BTreeMap<String, String> {
+            procs += 1;
+            let mut m = per_label(&run_child(&ctx, seed, &args));
+            // a backend that killed the process hides the ones after it: run those alone
+            for b in &bvs {
+                let l = b.label();
+                let missing = m.get(&l).map(|t| t.is_empty() || t.contains("STATUS died")).unwrap_or(true);
+                if missing && m.len() < bvs.len() {
+                    let mut a = worlds[wi].1.clone();
+                    a.push(l.clone());
+                    procs += 1;
+                    let one = per_label(&run_child(&ctx, seed, &a));
+                    m.insert(l.clone(), one.get(&l).cloned().unwrap_or_else(|| "STATUS died\n".into()));
+                }
+            }
+            m
+        };
+        let base = run_seed(0);
+        let others: Vec<(u64, BTreeMap<String, String>)> = (1..k).map(|s| (s, run_seed(s))).collect();
+        let mut out = Vec::new();
+        for (bi, b) in bvs.iter().enumerate() {
+            let l = b.label();
+            let b0 = base.get(&l).cloned().unwrap_or_default();
+            let status0 = b0.lines().next().unwrap_or("").to_string();
+            let nfiles = b0.lines().filter(|x| x.starts_with("FILE ")).count();
+            let mut differing = Vec::new();
+            if status0 == "STATUS ok" {
+                for (s, m) in &others {
+                    if m.get(&l) != Some(&b0) {
+                        differing.push(*s);
+                    }
+                }
+            }
+            let mut diff = Value::Null;
+            if let Some(seed) = differing.first() {
+                let (kind, info) = describe_diff(&ctx, &args, &l, *seed, &format!("{wi}-{bi}"));
+                procs += 2;
+                diff = json!({"kind": kind, "info": info, "seed": seed});
+            }
+            out.push(json!({"w": wi, "b": bi, "status0": status0, "files": nfiles,
+                   "differing_seeds": differing, "diff": diff,
+                   "out_hash": format!("{:016x}", vcommon::fnv(b0.as_bytes()))}));
+        }
+        json!({"procs": procs, "rows": out})
+    });
+    let mut results: Vec<Value> = Vec::new();
+    let mut evaluations = 0u64;
+    let mut generations = 0u64;
+    for w in &per_world {
+        evaluations += w["procs"].as_u64().unwrap();
+        for r in w["rows"].as_array().unwrap() {
+            results.push(r.clone());
+        }
+    }
+
+    // ---- aggregate -----------------------------------------------------------------------
+    let mut compared = 0usize;
+    let mut not_generated: BTreeMap<String, usize> = BTreeMap::new();
+    let mut distinct_outputs: BTreeSet<String> = BTreeSet::new();
+    let mut samples = vcommon::Samples::new(10);
+    let mut per_bv: BTreeMap<String, (usize, usize)> = BTreeMap::new();
+    struct V { count: usize, what: String, detail: Value, size: usize }
+    let mut viol: BTreeMap<String, V> = BTreeMap::new();
+    for r in &results {
+        let (wi, bi) = (r["w"].as_u64().unwrap() as usize, r["b"].as_u64().unwrap() as usize);
+        let label = bvs[bi].label();
+        let st = r["status0"].as_str().unwrap_or("");
+        let e = per_bv.entry(label.clone()).or_insert((0, 0));
+        if st != "STATUS ok" {
+            *not_generated.entry(format!("{label}: {}", e7_gen::normalise_msg(&st.chars().take(90).collect::<String>()))).or_insert(0) += 1;
+            continue;
+        }
+        compared += 1;
+        generations += k;
+        e.0 += 1;
+        distinct_outputs.insert(format!("{label}|{}", r["out_hash"].as_str().unwrap()));
+        samples.offer(|| json!({"world": worlds[wi].0, "backend_variant": label, "files": r["files"], "seeds_compared": k, "differing_seeds": r["differing_seeds"]}));
+        if !r["diff"].is_null() {
+            e.1 += 1;
+            let key = format!("{label}:{}", r["diff"]["kind"].as_str().unwrap());
+            let mut args = worlds[wi].1.clone();
+            args.push(all_labels.clone());
+            let mut detail = worlds[wi].2.clone();
+            detail["child_args"] = json!(args);
+            detail["backend_variant"] = json!(label);
+            detail["seed"] = r["diff"]["seed"].clone();
+            detail["differing_seeds"] = r["differing_seeds"].clone();
+            detail["difference"] = r["diff"]["info"].clone();
+            let size = worlds[wi].2["wit_text"].as_str().map(|t| t.len()).unwrap_or(1 << 20);
+            let what = format!(
+                "`wit-bindgen {}` on {} produces different output in processes with hash seed 0 and seed {} ({} of {} seeds differ): {}",
+                label.replace(':', " variant "), worlds[wi].0, r["diff"]["seed"], r["differing_seeds"].as_array().unwrap().len(), k - 1, r["diff"]["info"]
+            );
+            let v = viol.entry(key).or_insert(V { count: 0, what: what.clone(), detail: detail.clone(), size });
+            v.count += 1;
+            if size < v.size {
+                v.size = size;
+                v.what = what;
+                v.detail = detail;
+            }
+        }
+    }
+    let mut keys = Vec::new();
+    for (key, v) in &viol {
+        if key.ends_with("-:not-reproduced-on-rerun") {
+            // still a difference between two processes; reported, key names the phenomenon
+        }
+        keys.push(json!({"key": key, "world_x_variant_pairs": v.count}));
+        let mut d = v.detail.clone();
+        d["pairs_with_this_key"] = json!(v.count);
+        run.violation(key, &v.what, d);
+    }
+    if compared < 200 {
+        vcommon::machinery(&format!("only {compared} (world, backend) pairs generated successfully"));
+    }
+    let coverage = json!({
+        "evaluations": generations,
+        "processes": evaluations,
+        "distinct_nontrivial": distinct_outputs.len(),
+        "rule": "distinct (backend:variant, hash of all generated file names+bytes at seed 0) pairs among the (world, backend:variant) pairs that generated successfully and were compared across all K seeds; evaluations = real generations compared (pairs × K); processes = child processes, one per (world, seed), each running every backend:variant in the same fixed order",
+        "exhaustive": true,
+        "seeds_K": k,
+        "seed_alphabet": "VERIF_HASH_SEED = 0..K-1 → splitmix64 stream returned by the interposed getrandom(); ASLR on",
+        "interposition_probe": {"seed0_twice_same_order": p0 == p0b, "distinct_HashSet_orders_among_seeds_1_to_K-1": others.len(),
+                                 "two_unseeded_processes_differ": unseeded.0 != unseeded.1},
+        "worlds": worlds.len(),
+        "composed_worlds": composed_ok,
+        "composed_world_shape": "3 packages, 7 interfaces x (4 typedefs + 1 resource + 4-8 functions), 3 world-level typedefs, 6 world-level functions, 4 imports + 3 exports; 5 feature flavours",
+        "corpus_entries": corpus.len(),
+        "backend_variants": bvs.len(),
+        "pairs_compared_across_all_seeds": compared,
+        "pairs_not_generated_at_seed0_skipped": not_generated,
+        "per_backend_variant_compared_and_differing": per_bv.iter().map(|(k, v)| (k.clone(), json!({"compared": v.0, "differing": v.1}))).collect::<BTreeMap<_, _>>(),
+        "violation_keys": keys,
+        "distinct_outcomes": distinct_outputs.len() + viol.len(),
+        "oracle": "status, file names and file bytes of every seed's process identical to the seed-0 process",
+        "samples": samples.items,
+    });
+    let _ = std::fs::remove_dir_all(&tmp);
+    run.finish(
+        coverage,
+        vec![
+            "K seeds is a bounded alphabet of hash-iteration orders, not all of them; a map with n keys has n! orders".into(),
+            "only std RandomState (and everything else that calls getrandom) is owned by the seed; hashers seeded from addresses vary with ASLR, which is left on and would show up as a difference too".into(),
+            "pairs whose seed-0 generation returns Err or panics (unsupported features, see C16) are skipped and counted".into(),
+            "go runs with --format=false (gofmt is not installed; the default only tries to spawn it)".into(),
+        ],
+    )
+}
